@@ -172,19 +172,47 @@ def _run_base(ctx):
     # ---------------------------------------------------------------- R05.2
     entry = [STR + ':resolve_strategy_generic', STR + ':resolve_conflicted_decisions_list',
              STR + ':resolve_conflicted_decisions_dict', STR + ':resolve_conflicted_decisions_strings']
+    def _nodoc(fn):
+        return [s for s in fn.body if not (isinstance(s, ast.Expr) and isinstance(s.value, ast.Constant))]
+
+    def _own_guard(fn):
+        first = _nodoc(fn)[0]
+        return isinstance(first, ast.If) and len(first.body) == 1 and isinstance(first.body[0], ast.Return) and \
+            truth_under(first.test, False, lambda e: isinstance(e, ast.Call) and isinstance(e.func, ast.Attribute) and e.func.attr == 'has_conflicted') is True
+
+    def _guarded(fid, depth=0):
+        """the function has the entry guard itself, or does nothing but hand its arguments to one that has"""
+        fn = repo.functions[fid]
+        if _own_guard(fn):
+            return fid
+        body = _nodoc(fn)
+        if depth < 2 and len(body) == 1 and isinstance(body[0], (ast.Expr, ast.Return)) and isinstance(body[0].value, ast.Call):
+            for kind, tgt in cg.resolve(body[0].value.func, fn):
+                if kind == 'func' and tgt in repo.functions:
+                    return _guarded(tgt, depth + 1)
+        return None
+
     for fid in entry:
         fn = repo.func(fid)
-        first = [s for s in fn.body if not (isinstance(s, ast.Expr) and isinstance(s.value, ast.Constant))][0]
-        ok = isinstance(first, ast.If) and len(first.body) == 1 and isinstance(first.body[0], ast.Return) and \
-            truth_under(first.test, False, lambda e: isinstance(e, ast.Call) and isinstance(e.func, ast.Attribute) and e.func.attr == 'has_conflicted') is True
-        ctx.inst('R05.2', fid, repo.norm(first.test) if isinstance(first, ast.If) else '<no entry guard>', ok,
+        first = _nodoc(fn)[0]
+        via = _guarded(fid)
+        ok = via is not None
+        ctx.inst('R05.2', fid, (repo.norm(first.test) if isinstance(first, ast.If) else '<no entry guard>') if via in (None, fid) else
+                 'delegates to %s' % via.split(':')[1], ok,
                  'returns immediately unless some decision is conflicted' if ok else
                  'strategy resolution runs even when nothing is conflicted (clean merges are rewritten)', first)
     helpers = [f for f in repo.functions if f.startswith(STR + ':resolve_strategy_') and f not in entry
                and f != STR + ':resolve_strategy_inline_source']
+    smod = repo.mod(STR)
     for h in sorted(helpers):
         callers = set(cg.callers(h))
-        ok = bool(callers) and callers <= set(entry)
+        # dispatch through a module-level table: every function that reads the table counts as a caller
+        hname = h.split(':')[1]
+        tables = {nm for nm, vals in smod.assigns.items() if any(isinstance(x, ast.Name) and x.id == hname for v in vals for x in ast.walk(v))}
+        for fid2, fn2 in repo.functions.items():
+            if fid2.startswith(STR + ':') and any(isinstance(x, ast.Name) and x.id in tables and isinstance(x.ctx, ast.Load) for x in ast.walk(fn2)):
+                callers.add(fid2)
+        ok = bool(callers) and all(c in entry or _guarded(c) for c in callers)
         ctx.inst('R05.2', h, 'called only from %s' % sorted(c.split(':')[1] for c in callers), ok,
                  'reached only behind an entry guard' if ok else 'a decision-rewriting helper is called without the has_conflicted() guard', repo.functions[h])
     # per-decision stores under d.conflict
